@@ -113,6 +113,18 @@ def check_sasa(n_atoms: int = 2, n_points: int = 2, mapping: str = "atom", mask:
         ssec += time.time() - t
         nq += 1
         if r == z3.sat and bad is None:
+            # refine: the linear abstraction names products of unknowns; re-solve with their defining equations so that the
+            # reported coordinates are a genuine point of this path (unsat here = the abstract answer was spurious)
+            sol.add(*I.mono_defs())
+            t = time.time()
+            r2 = sol.check()
+            ssec += time.time() - t
+            nq += 1
+            if r2 == z3.unsat:
+                continue
+            if r2 == z3.unknown:
+                unknown += 1
+                continue
             m = sol.model()
             vals = [c05.L_model_float(m, I.emit(x)) for x in X]
             bad = {"coords_frame1": vals, "out_term": [str(o)[:120] for o in out1]}
@@ -147,8 +159,31 @@ def run(frames):
     lib.sasa(len(frames), n_atoms, fp(xyz), fp(radii), n_points, fp(np.array(amap, dtype=np.int32)), fp(np.array(sel, dtype=np.int32)), ng, fp(out))
     return out
 both = run([f0, f1]); alone = run([f1])
-print("frame 1 inside a 2-frame call:", both[1], " alone:", alone[0])
-sys.exit(1 if np.abs(both[1] - alone[0]).max() > 1e-6 else 0)
+# independent evaluation of the documented rule on the same golden-spiral point set (double precision)
+def points(n):
+    inc = np.float32(math.pi * (3.0 - math.sqrt(5.0))); off = np.float32(2.0 / n); pts = []
+    for i in range(n):
+        y = np.float32(i * off - 1.0 + (off / 2.0)); r = np.float32(math.sqrt(1.0 - float(y) * float(y))); phi = np.float32(i * inc)
+        pts.append((float(np.float32(math.cos(phi) * r)), float(y), float(np.float32(math.sin(phi) * r))))
+    return pts
+def spec(c):
+    c = np.asarray(c, dtype=np.float64); r = radii.astype(np.float64); out = np.zeros(ng); margin = []
+    for i in range(n_atoms):
+        if not sel[i]: continue
+        for p in points(n_points):
+            pc = c[i] + r[i] * np.array(p); acc = True
+            for j in range(n_atoms):
+                if j == i: continue
+                dn = ((c[i] - c[j]) ** 2).sum() - (r[i] + r[j]) ** 2; dp = ((pc - c[j]) ** 2).sum() - r[j] ** 2
+                margin += [abs(dn), abs(dp)]
+                if dn < 0 and dp < 0: acc = False
+            if acc: out[amap[i]] += float(np.float32(4.0 * math.pi / n_points)) * r[i] * r[i]
+    return out, (min(margin) if margin else 1.0)
+want, margin = spec(f1)
+print("frame 1 inside a 2-frame call:", both[1], " alone:", alone[0], " independent evaluation:", want, " decision margin:", margin)
+if margin < 1e-5:
+    sys.exit(3)      # a float32 tie: this concrete point cannot discriminate
+sys.exit(1 if max(np.abs(both[1] - alone[0]).max(), np.abs(both[1] - want).max(), np.abs(alone[0] - want).max()) > 1e-4 else 0)
 '''
 
 
